@@ -178,6 +178,52 @@ theorem Mealy.state_fixed (m : Mealy σ ι ο) (hs : ∀ s x, m.next s x = s) (e
   | zero => rfl
   | succ t ih => simp [Mealy.state_succ, hs, ih]
 
+/-- inputs consumed at enabled edges before cycle `t` -/
+def hist (en : Stream Bool) (xs : Stream ι) : Nat → List ι
+  | 0 => []
+  | t + 1 => if en t then hist en xs t ++ [xs t] else hist en xs t
+
+theorem hist_length (en : Stream Bool) (xs : Stream ι) (t : Nat) : (hist en xs t).length = cnt en t := by
+  induction t with
+  | zero => rfl
+  | succ t ih =>
+    by_cases h : en t
+    · simp [hist, cnt_succ, h, ih]
+    · simp [hist, cnt_succ, h, ih]
+
+theorem Mealy.state_eq_foldl (m : Mealy σ ι ο) (en : Stream Bool) (xs : Stream ι) (t : Nat) :
+    m.state en xs t = (hist en xs t).foldl m.next m.init := by
+  induction t with
+  | zero => rfl
+  | succ t ih =>
+    by_cases h : en t
+    · simp [Mealy.state_succ, hist, h, ih, List.foldl_append]
+    · simp [Mealy.state_succ, hist, h, ih]
+
+/-- finite memory (feed-forward registers only): after `k` consumed inputs the state does not depend on where it started -/
+def Mealy.Forgets (m : Mealy σ ι ο) (k : Nat) : Prop :=
+  ∀ (s s' : σ) (ws : List ι), ws.length = k → ws.foldl m.next s = ws.foldl m.next s'
+
+theorem Mealy.forgets_ge (m : Mealy σ ι ο) (k : Nat) (h : m.Forgets k) (ws : List ι) (hk : k ≤ ws.length) (s s' : σ) :
+    ws.foldl m.next s = ws.foldl m.next s' := by
+  have hsplit := List.take_append_drop (ws.length - k) ws
+  rw [← hsplit, List.foldl_append, List.foldl_append]
+  apply h
+  simp [List.length_drop]; omega
+
+theorem Mealy.retime_filled (m : Mealy σ ι ο) (k : Nat) (hf : m.Forgets k) (en : Stream Bool) (r : ι) (xs : Stream ι)
+    (t : Nat) (ht : k + 1 ≤ cnt en t) :
+    m.run en (regS en r xs) t = regS en (m.out m.init r) (m.run en xs) t := by
+  rw [Mealy.retime_advanced]
+  apply regS_agree en k _ _ _ _ _ t ht
+  intro u hu
+  simp only [Mealy.run]
+  rw [Mealy.state_eq_foldl, Mealy.state_eq_foldl]
+  have : (hist en xs u).foldl (m.advance r).next (m.advance r).init = (hist en xs u).foldl m.next m.init :=
+    Mealy.forgets_ge m k hf _ (by rw [hist_length]; exact hu) _ _
+  simp only [Mealy.advance] at this ⊢
+  rw [this]
+
 end mealy
 
 /-! ### register trees -/
